@@ -72,10 +72,15 @@ def gen_acl(rng, tier, seed):
     faults_on = rng.random() < 0.65
     if not faults_on:
         ops = [o for o in ops if o[0] != 'bad']
+    ops = ops or [['pdu', 0, 0, 10]]
+    bystander = rng.random() < 0.3
+    if bystander:
+        # a second connection of node 0 (sharing its data packet queue) goes away while PDUs are queued / in flight
+        ops.insert(rng.randint(1, len(ops)), ['drop_other'])
     return {
         'ctrl': ctrl, 'transport': transport, 'profile': rng.choice(PROFILE_NAMES),
         'refragment': [rng.choice([0, 0, 1, 5, 27, 100]) if faults_on else 0 for _ in range(2)],
-        'ops': ops or [['pdu', 0, 0, 10]],
+        'ops': ops, 'bystander': bystander,
     }
 
 
@@ -181,8 +186,12 @@ def run_acl(case):
         for c in case['ctrl']:
             attrs.append({'acl_data_packet_length': c['acl_len'], 'total_num_acl_data_packets': c['acl_num'],
                           'le_acl_data_packet_length': c['le_len'], 'total_num_le_acl_data_packets': c['le_num'] if c['le_len'] else 0})
-        world = World(sim, 2, controller_attrs=attrs, classic=classic)
+        nb = 3 if case.get('bystander') else 2
+        if nb == 3:
+            attrs.append(dict(attrs[1]))
+        world = World(sim, nb, controller_attrs=attrs, classic=classic)
         world.power_on()
+        other = None
         if classic:
             got = []
             world[1].device.once('connection', got.append)
@@ -190,10 +199,19 @@ def run_acl(case):
             sim.loop.drive(lambda: bool(got), 10.0)
             sim.loop.settle()
             conns = [c0, got[0]]
+            if nb == 3:
+                got2 = []
+                world[2].device.once('connection', got2.append)
+                sim.must(world[0].device.connect(world[2].controller.public_address, transport=0), 'classic connect (bystander)')
+                sim.loop.drive(lambda: bool(got2), 10.0)
+                sim.loop.settle()
+                other = got2[0] if got2 else None
         else:
             conns = list(world.connect_le(0, 1))
+            if nb == 3:
+                other = world.connect_le(0, 2)[1]
         mons = []
-        for i, nd in enumerate(world.nodes):
+        for i, nd in enumerate(world.nodes[:2]):
             c = case['ctrl'][i]
             if classic or c['le_len'] == 0:
                 L, N = c['acl_len'], c['acl_num']
@@ -265,6 +283,12 @@ def run_acl(case):
                 shape.append(('pdu', d))
             elif op[0] == 'settle':
                 sim.loop.settle(vt_budget=600.0, step_budget=2_000_000)
+            elif op[0] == 'drop_other':
+                if other is not None:
+                    sim.fault('other_connection_disconnected_mid_transfer')
+                    sim.loop.create_task(other.disconnect())
+                    other = None
+                    shape.append(('drop_other',))
             elif op[0] == 'bad':
                 st = sim.loop.settle(vt_budget=600.0, step_budget=2_000_000)
                 inject_bad(op[1], op[2], op[3])
